@@ -407,7 +407,41 @@ fn acceptance(t: &mut Tape, ctx: &mut Ctx) -> CheckResult {
     ctx.class("group:acceptance");
     let sz = ctx.sizes;
     let al = gen::alpha(t, &sz);
-    match t.choice(4) {
+    match t.choice(5) {
+        4 => {
+            // Operations::new on raw (labels, source types, target types): one type of each kind per label
+            let n = t.range(0, 4);
+            let labels: Vec<Op> = (0..n).map(|_| Op(t.choice(al.el) as u32)).collect();
+            let tys = |t: &mut Tape, k: usize| -> Vec<Vec<Ob>> { (0..k).map(|_| (0..t.range(0, 3)).map(|_| Ob(t.choice(al.nl) as u32)).collect()).collect() };
+            let (mut na, mut nb) = (n, n);
+            match t.weighted(&[3, 1, 1, 1]) {
+                1 => na = if t.chance(1, 2) { n + 1 + t.choice(2) } else { n.saturating_sub(1) },
+                2 => nb = if t.chance(1, 2) { n + 1 + t.choice(2) } else { n.saturating_sub(1) },
+                3 => {
+                    na = t.range(0, 5);
+                    nb = t.range(0, 5);
+                }
+                _ => {}
+            }
+            let (a, b) = (tys(t, na), tys(t, nb));
+            ctx.set_dump(format!("Operations::new: labels {:?} source types {:?} target types {:?}", labels, a, b));
+            ctx.sub("operations-new-iff");
+            let ok = na == n && nb == n;
+            ctx.class_if(!ok, "planted-flaw");
+            let r = Operations::<sv::K, Ob, Op>::new(sv::sf(labels.clone()), sv::ics(&a), sv::ics(&b));
+            ensure!(ctx, r.is_some() == ok, "operations-new-iff", "Operations::new accepted = {} but there are {} labels, {} source types and {} target types", r.is_some(), n, na, nb);
+            if let Some(ops) = r {
+                // an accepted batch becomes a well-formed diagram of the declared type
+                let f = OpenHypergraph::<sv::K, Ob, Op>::tensor_operations(ops);
+                let want_s: Vec<u32> = a.iter().flatten().map(|o| o.0).collect();
+                let want_t: Vec<u32> = b.iter().flatten().map(|o| o.0).collect();
+                check_value(ctx, &f, (&want_s, &want_t), "tensor_operations of an accepted batch")?;
+            }
+            if !ok || n >= 1 {
+                ctx.nontrivial(&("operations", &labels, &a, &b));
+            }
+            return Ok(());
+        }
         3 => {
             // IndexedCoproduct::new / from_semifinite on raw (sizes, codomain, values)
             let target = t.range(0, 4);
